@@ -14,6 +14,7 @@ import (
 	"encoding/json"
 	"fmt"
 	"hash/fnv"
+	"runtime/debug"
 	"sort"
 	"strings"
 
@@ -204,6 +205,39 @@ func (m *mirrorCtx) checkUnique(label string, idxPath []string, holders map[stri
 }
 
 func (m *mirrorCtx) checkSetIndex(label string, idxPath []string, holders map[string][]string, idx boltz.SetReadIndex) {
+	defer func() {
+		// a read of the index that panics has not answered: reported like a wrong answer, never a harness crash
+		if p := recover(); p != nil {
+			switch p.(type) {
+			case abortSig, injectedPanic:
+				panic(p)
+			}
+			if !libraryPanic() {
+				panic(p)
+			}
+			m.bad("C03", "set-index-read-panic:"+label, "set index %s: a read panicked: %v", label, p)
+		}
+	}()
+	// values that no entity holds: every read style must answer "nobody"
+	for _, absent := range [][]string{{"r-nobody"}, {"r-nobody", "r-nobody2"}} {
+		if got := m.s.People.FindMatching(m.tx, idx, absent); len(got) != 0 {
+			m.bad("C03", "set-index-read:"+label, "set index %s: FindMatching(%v)=%v, nobody holds these", label, absent, got)
+		}
+		if got := m.s.People.FindMatchingAnyOf(m.tx, idx, absent); len(got) != 0 {
+			m.bad("C03", "set-index-read:"+label, "set index %s: FindMatchingAnyOf(%v)=%v, nobody holds these", label, absent, got)
+		}
+		for _, fwd := range []bool{true, false} {
+			if got := cursorIds(m.s.People.IteratorMatchingAllOf(idx, absent)(m.tx, fwd)); len(got) != 0 {
+				m.bad("C03", "set-index-read:"+label, "set index %s: IteratorMatchingAllOf(%v)=%v, nobody holds these", label, absent, got)
+			}
+			if got := cursorIds(m.s.People.IteratorMatchingAnyOf(idx, absent)(m.tx, fwd)); len(got) != 0 {
+				m.bad("C03", "set-index-read:"+label, "set index %s: IteratorMatchingAnyOf(%v)=%v, nobody holds these", label, absent, got)
+			}
+			if got := cursorIds(idx.OpenValueCursor(m.tx, []byte(absent[0]), fwd)); len(got) != 0 {
+				m.bad("C03", "set-index-read:"+label, "set index %s: OpenValueCursor(%q)=%v, nobody holds it", label, absent[0], got)
+			}
+		}
+	}
 	ib := rawPath(m.tx, idxPath...)
 	stored := map[string][]string{}
 	if ib != nil {
@@ -347,6 +381,44 @@ func (m *mirrorCtx) checkBackrefs(label string, targetStore, field string, targe
 }
 
 // Mirror recomputes all redundant state from the stored entities.
+// libraryPanic reports whether the panic being recovered was raised by a frame outside the harness and the Go
+// runtime (i.e. by the library under test or bbolt). A panic raised by harness code stays a harness failure.
+func libraryPanic() bool {
+	st := string(debug.Stack())
+	i := strings.LastIndex(st, "\npanic(")
+	if i < 0 {
+		return false
+	}
+	lines := strings.Split(st[i+1:], "\n")
+	// lines: "panic(...)", "\t<file>", then pairs of (function, "\t<file>:<line> +0x..")
+	for j := 2; j+1 < len(lines); j += 2 {
+		file := strings.TrimSpace(lines[j+1])
+		if strings.Contains(file, "/src/runtime/") || strings.Contains(file, "/src/internal/") {
+			continue
+		}
+		return !strings.Contains(file, "/sim/dsim/")
+	}
+	return false
+}
+
+// guardOracle runs an oracle; a panic raised inside the library while the oracle reads through the public API is
+// a wrong answer of that API for the properties the oracle decides.
+func guardOracle(name string, props []string, f func() []Violation) (out []Violation) {
+	defer func() {
+		if p := recover(); p != nil {
+			switch p.(type) {
+			case abortSig, injectedPanic:
+				panic(p)
+			}
+			if !libraryPanic() {
+				panic(p)
+			}
+			out = append(out, Violation{Props: props, Oracle: name, Sig: "read-panic:" + name, Detail: fmt.Sprintf("a read through the public API panicked while the %s oracle examined the committed state: %v", name, p)})
+		}
+	}()
+	return f()
+}
+
 func Mirror(tx *bbolt.Tx, s *Stores) []Violation {
 	m := &mirrorCtx{tx: tx, s: s}
 	depts := subBucketNames(rawPath(tx, rootBucket, StDepts))
@@ -403,6 +475,11 @@ func Mirror(tx *bbolt.Tx, s *Stores) []Violation {
 	for _, id := range badges {
 		if v, _ := rawString(rawPath(tx, rootBucket, StBadges, id), "owner"); v == "" {
 			m.bad("C04", "fk-null-nonnullable:badges.owner", "badge %q stored with empty non-nullable owner", id)
+		}
+	}
+	for _, id := range memos {
+		if v, _ := rawString(rawPath(tx, rootBucket, StMemos, id), "topic"); v == "" {
+			m.bad("C04", "fk-null-nonnullable:memos.topic", "memo %q stored with empty non-nullable topic", id)
 		}
 	}
 
@@ -899,6 +976,21 @@ func ChildViews(tx *bbolt.Tx, s *Stores, m *Model, names, roles []string) []Viol
 				bad("query:"+v.name, "%s.QueryIds(name = %q) failed: %v", v.name, n, err)
 			} else if !sameSet(ids, want) {
 				bad("query-name:"+v.name, "%s.QueryIds(name = %q)=%q, want %q", v.name, n, ids, want)
+			}
+		}
+		for _, tv := range []string{"tv", "tw"} {
+			// a map symbol granted by the parent store: evaluated on the parent's data through every view
+			var want []string
+			for _, id := range v.listed {
+				if s, ok := m.People[id].Tags["tka"].(string); ok && s == tv {
+					want = append(want, id)
+				}
+			}
+			ids, _, err := v.store.QueryIds(tx, fmt.Sprintf(`tags.tka = "%s"`, tv))
+			if err != nil {
+				bad("query:"+v.name, "%s.QueryIds(tags.tka = %q) failed: %v", v.name, tv, err)
+			} else if !sameSet(ids, want) {
+				bad("query-tags:"+v.name, "%s.QueryIds(tags.tka = %q)=%q, want %q", v.name, tv, ids, want)
 			}
 		}
 		for _, r := range roles {
